@@ -12,6 +12,12 @@ use super::nd;
 static mut LAST_PANIC: Option<String> = None;
 
 pub fn main() -> i32 {
+    let args: Vec<String> = std::env::args().collect();
+    if args.len() >= 4 && args[1] == "--random" {
+        // native smoke run: harness <name> with pseudo-random choices from <seed>
+        nd::install_random(args[3].parse::<u64>().expect("seed") + 1);
+        return run_named(args[2].clone());
+    }
     let path = std::env::args()
         .nth(1)
         .or_else(|| std::env::var("VERIF_REPLAY_VEC").ok())
@@ -33,6 +39,10 @@ pub fn main() -> i32 {
         );
     }
     nd::install(vecs);
+    run_named(name)
+}
+
+fn run_named(name: String) -> i32 {
     std::panic::set_hook(std::boxed::Box::new(|info| {
         let msg = if let Some(s) = info.payload().downcast_ref::<&str>() {
             s.to_string()
@@ -47,7 +57,12 @@ pub fn main() -> i32 {
             .location()
             .map(|l| std::format!("{}:{}", l.file(), l.line()))
             .unwrap_or_default();
-        unsafe { LAST_PANIC = Some(std::format!("{} @ {}", msg, loc)) };
+        std::eprintln!("[replay] panic: {} @ {}", msg, loc);
+        unsafe {
+            if LAST_PANIC.is_none() {
+                LAST_PANIC = Some(std::format!("{} @ {}", msg, loc))
+            }
+        };
     }));
     let name2 = name.clone();
     let r = std::panic::catch_unwind(move || super::dispatch_gen::run(&name2));
